@@ -394,23 +394,40 @@ func (c *client) waitForCompletion(ctx context.Context, rc hrpc.RegionClient,
 	ok = true
 	canceledIndex := len(rpcs)
 
+	handleResult := func(rpc hrpc.Call, res hrpc.RPCResult) {
+		results[rpcToRes[rpc]] = res
+		if res.Error != nil {
+			c.handleResultError(res.Error, rpc.Region(), rc)
+			ok = false
+			switch res.Error.(type) {
+			case region.RetryableError:
+				shouldBackoff = true
+				retryables = append(retryables, rpc)
+			case region.ServerError, region.NotServingRegionError:
+				retryables = append(retryables, rpc)
+			default:
+				unretryableError = true
+			}
+		}
+	}
+
 loop:
 	for i, rpc := range rpcs {
 		select {
 		case res := <-rpc.ResultChan():
-			results[rpcToRes[rpc]] = res
-			if res.Error != nil {
-				c.handleResultError(res.Error, rpc.Region(), rc)
+			handleResult(rpc, res)
+
+		case <-rpc.Context().Done():
+			// The call's own context is done. A region client drops such a
+			// call instead of completing it, so don't wait for a result
+			// that may never come; use it if it is already there.
+			select {
+			case res := <-rpc.ResultChan():
+				handleResult(rpc, res)
+			default:
+				results[rpcToRes[rpc]].Error = rpc.Context().Err()
 				ok = false
-				switch res.Error.(type) {
-				case region.RetryableError:
-					shouldBackoff = true
-					retryables = append(retryables, rpc)
-				case region.ServerError, region.NotServingRegionError:
-					retryables = append(retryables, rpc)
-				default:
-					unretryableError = true
-				}
+				unretryableError = true
 			}
 
 		case <-ctx.Done():
